@@ -20,7 +20,7 @@ CHECKS = {
 }
 CHECKS.update({
  "C08": dict(engine="E-PTS + E-TABLE + E-ALLOC(R4)", cat="other", ref="DESIGN.md 4/C08",
-   text="Three necessary structural clauses of the set behaviour: operands of the set algebra and of every reader are deep-immutable (no store reaches memory rooted at a const bitmap, including through the captured iterator); every switch on the container type names all three enumerators; no mutator frees the live container without having read it or being dominated by an emptiness test. Set semantics under histories, change reports and iterator order are NOT decided.",
+   text="Three necessary structural clauses of the set behaviour: operands of the set algebra and of every reader are deep-immutable (no store reaches memory rooted at a const bitmap, including through the captured iterator); every switch on the container type names all three enumerators; no mutator frees the live container without having read it or being dominated by an emptiness test; mutator if-chains over the container type name every enumerator. Set semantics under histories, change reports and iterator order are NOT decided.",
    note=TB + "Set equality with a mathematical model is a behavioural property over histories and is out of reach of a sound static argument here; only the named clauses are claimed.",
    tech="static analysis: points-to Mod sets, switch-table exhaustiveness, free-without-read dataflow on LLVM IR"),
  "C15": dict(engine="E-PTS + E-UNINIT", cat="other", ref="DESIGN.md 4/C15, 3/E-UNINIT",
@@ -77,9 +77,9 @@ CHECKS.update({
    tech="static analysis: decision-table extraction and interval evaluation on LLVM IR"),
 })
 CHECKS["C03"] = dict(engine="E-SIZE + sibling size terms", cat="other", ref="DESIGN.md 4/C03, 3/E-SIZE, 10.7",
-   text="Z1/Z3: for the size predictors and their encoders (FORSize/FOREncode+BatchEncode, PFORSize/PFOREncode, DictEncodedSizeWithDict/DictEncodeWithDict, GroupSize/GroupEncode, RLEAnalyze/RLEEncode) every call whose result advances the encoder's cursor is matched by a predictor term with the same extracted length table on the same quantity (or a constant maximum), and the total sizes, as polynomials over named lengths, counts and widths with loop trip counts, are equal (>= for the documented worst-case PFOR predictor). Z2: for the delta codec (signed and unsigned) every write offset+size and the returned length are bounded by init + back-edges x advance and compared coefficient-wise with varintDeltaMaxEncodedSize. NOT decided: the maximum-size bounds of RLE (amortised), adaptive (depends on value-level selection), Elias, BP128 and float; see evidence not_decided.",
-   note=TB + "Sizes and counts are non-negative and do not wrap; metadata fields named alike in predictor and encoder denote the same quantity (FOREncode re-analyses when meta->count != count). 1 fixed finding (varintPFORSize index term).",
-   tech="static analysis: sibling agreement of extracted length tables / value roles and symbolic upper bounds of output cursors (polynomials with loop trip counts) on LLVM IR")
+   text="Z1/Z3: for the size predictors and their encoders (FORSize/FOREncode+BatchEncode, PFORSize/PFOREncode, DictEncodedSizeWithDict/DictEncodeWithDict, GroupSize/GroupEncode, RLEAnalyze/RLEEncode) every call whose result advances the encoder's cursor is matched by a predictor term with the same extracted length table on the same quantity (or a constant maximum), and the total sizes, as polynomials over named lengths, counts and widths with loop trip counts, are equal (>= for the documented worst-case PFOR predictor). Z2: for 8 encoders - delta (signed, unsigned), the four 128-block packers, the two Elias array encoders - every write offset+size through the destination and the returned length are bounded symbolically (init + iterations x advance; block loops split into full blocks and one partial block; counters kept in a writer object summed over callees) and compared with the exact sizing function for every residue of count modulo the block size / 8. NOT decided: writes of the FOR/PFOR/Dict/Group encoders against their predictors (only totals and terms), the maximum-size bounds of RLE (amortised), adaptive (depends on value-level selection) and float (special and normal values are exclusive); see evidence not_decided.",
+   note=TB + "Sizes and counts are non-negative and unsigned arithmetic on them does not wrap; metadata fields named alike in predictor and encoder denote the same quantity; bytes written through the Elias bit writer lie below the byte count the writer reports. 3 fixed findings (varintPFORSize index term, varintBP128MaxBytes prefix, varintAdaptiveMaxSize).",
+   tech="static analysis: sibling agreement of extracted length tables / value roles, and symbolic upper bounds of output cursors (quasi-polynomials with loop trip counts, compared by residue enumeration) on LLVM IR")
 NA = {
  "C02": "losslessness of array codecs is value-level equality after arithmetic; no clause has a shape in the code that static analysis can decide (DESIGN.md 4/C02)",
 }
